@@ -98,6 +98,7 @@ def _chunk_body(prop, stream, seed, tier, lo, hi, cfg, statedir, want_samples, o
     violations = []
     samples = []
     reach = set()
+    sets = {}
     marker = os.path.join(statedir, 'w%d' % os.getpid())
     faulthandler.dump_traceback_later(cfg.get('chunk_wall', 240), exit=True, file=sys.__stderr__)
     try:
@@ -124,6 +125,8 @@ def _chunk_body(prop, stream, seed, tier, lo, hi, cfg, statedir, want_samples, o
                 digests.add(d)
             if '_reach' in sc:
                 reach.update(tuple(x) for x in sc.pop('_reach'))
+            for nm, items in sc.pop('_sets', {}).items():
+                sets.setdefault(nm, set()).update(items)
             if vs:
                 stats['violating_runs'] += 1
                 if len(violations) < 3:
@@ -141,7 +144,7 @@ def _chunk_body(prop, stream, seed, tier, lo, hi, cfg, statedir, want_samples, o
         except OSError:
             pass
     return {'stream': stream, 'lo': lo, 'hi': hi, 'stats': stats, 'digests': digests,
-            'violations': violations, 'samples': samples, 'reach': reach}
+            'violations': violations, 'samples': samples, 'reach': reach, 'sets': sets}
 
 
 def _strip(sc):
@@ -230,6 +233,7 @@ def run_check(prop, tier, seed=None, workers=None, out=sys.stdout):
     total = Counter()
     digests = set()
     reach = set()
+    allsets = {}
     samples = []
     found = []
     planned = 0
@@ -280,6 +284,8 @@ def run_check(prop, tier, seed=None, workers=None, out=sys.stdout):
                 _merge(total, r['stats'])
                 digests.update(r['digests'])
                 reach.update(r['reach'])
+                for nm, items in r.get('sets', {}).items():
+                    allsets.setdefault(nm, set()).update(items)
                 samples.extend(r['samples'])
                 per_stream[stream]['done'] += hi - lo
                 done_runs += hi - lo
@@ -420,6 +426,8 @@ def run_check(prop, tier, seed=None, workers=None, out=sys.stdout):
         print('KNOWN-FINDING: property=%s %s' % (prop, e.get('what', e['sig'])), file=out)
     ev = build_evidence(mod, prop, tier, seed, total, digests, reach, samples, wall, planned, done_runs,
                         truncated, per_stream, extra, len(reports), workers)
+    for nm, items in sorted(allsets.items()):
+        ev['coverage']['distinct_' + nm] = len(items)
     evdir = os.environ.get('HXSIM_EVIDENCE_DIR') or os.path.join(VERIF, 'evidence')
     os.makedirs(evdir, exist_ok=True)
     with open(os.path.join(evdir, prop + '.json'), 'w') as fh:
